@@ -42,7 +42,10 @@ def nppf(p):
 def chi2cdf(x, nu):
     if x <= 0:
         return mp.mpf(0)
-    return mp.gammainc(mp.mpf(nu) / 2, 0, mp.mpf(x) / 2, regularized=True)
+    try:
+        return mp.gammainc(mp.mpf(nu) / 2, 0, mp.mpf(x) / 2, regularized=True)
+    except mp.libmp.libhyper.NoConvergence:      # far tails with huge nu
+        return chi2cdf_quad(x, nu)
 
 
 def _logfU(u, nu):
